@@ -143,6 +143,7 @@ def rule_gd1(repo, res):
             res.notes.append(f"GD1: pattern of {q}:{dname} not resolvable; skipped")
             continue
         guaranteed = set.intersection(*per.values()) if per else set()
+        conds_of = None
         for x in ast.walk(fn):
             if isinstance(x, ast.Subscript) and isinstance(x.value, ast.Name) and x.value.id == dname \
                     and isinstance(x.slice, ast.Constant) and isinstance(x.slice.value, str) and isinstance(x.ctx, ast.Load):
@@ -156,7 +157,25 @@ def rule_gd1(repo, res):
                         guarded = True
                     if isinstance(p, ast.IfExp) and a is p.body and norm(p.test) in (f"'{key}' in {dname}",):
                         guarded = True
+                    if isinstance(p, ast.IfExp) and a is p.orelse and norm(p.test) in (f"'{key}' not in {dname}",):
+                        guarded = True
                     a = p
+                if not guarded:
+                    # path conditions of the statement that holds the access (guard clauses with early exits included)
+                    from . import flow as _flow
+                    if conds_of is None:
+                        conds_of = _flow.conds_map(fn.body)
+                    a = x
+                    while a is not None and id(a) not in conds_of:
+                        a = getattr(a, "_parent", None)
+
+                    def has_key(test, pol, key=key):
+                        if isinstance(test, ast.Compare) and len(test.ops) == 1 and isinstance(test.left, ast.Constant) and test.left.value == key \
+                                and isinstance(test.comparators[0], ast.Name) and test.comparators[0].id == dname:
+                            return (isinstance(test.ops[0], ast.In) and pol) or (isinstance(test.ops[0], ast.NotIn) and not pol)
+                        return False
+                    if a is not None and _flow.holds(conds_of[id(a)], has_key):
+                        guarded = True
                 ok = key in guaranteed or guarded
                 res.oblige("GD1", f"{q}: {dname}['{key}'] names a group of the pattern for every grammar (or is guarded)", ok=ok)
                 if not ok:
